@@ -6,6 +6,6 @@ cd /verif
 git -C /repo apply /verif/seeded/$ID/patch.diff || { echo "patch does not apply"; exit 2; }
 for p in "$@"; do
   echo "== $ID vs check $p"
-  VERIF_NOMC=1 ./check $p --tier quick --seed ${SEED:-1} 2>&1 | grep -E "VIOLATION|^property|DRIFT|NO-VERDICT" | cut -c1-300 | head -4
+  VERIF_EVIDENCE_DIR=/tmp/seed-evidence VERIF_NOMC=1 ./check $p --tier quick --seed ${SEED:-1} 2>&1 | grep -E "VIOLATION|^property|DRIFT|NO-VERDICT" | cut -c1-300 | head -4
 done
 git -C /repo checkout -- .
